@@ -78,6 +78,26 @@ Theorem C15_index_check_width_matters :
 Proof. exact idx_ok_u32_unsound. Qed.
 Print Assumptions C15_index_check_width_matters.
 
+(* ---- parameters of a new pool (ValidatePoolParams): Msg/CreatePool is accepted only with a fee rate in
+        [0, 1), a price ratio in [1.0001, 1.5] and a base offset in the OPEN interval (-1, 1); then the
+        integer part of the exponent of every later Pow(ratio, offset) is 0 (never a negative number
+        converted to uint64).  A closed interval would accept -1, whose integer part is -1. *)
+Theorem C15_create_pool_accepts : forall n auth db dq fee ratio off,
+  static_done n (spec_of all_on "liquiditypool.Msg.CreatePool"%string)
+              (VMsg true [VStr auth; VStr db; VStr dq; VStr fee; VStr ratio; VStr off]) = true ->
+  si_acc auth = true /\ si_denom db = true /\ si_denom dq = true /\
+  (exists f, si_dec fee = Some f /\ 0 <= f < P) /\
+  (exists r, si_dec ratio = Some r /\ MIN_PRICE_RATIO <= r <= MAX_PRICE_RATIO) /\
+  (exists o, si_dec off = Some o /\ - P < o < P /\ pow_integer_part o = 0).
+Proof. exact create_pool_accepts. Qed.
+Print Assumptions C15_create_pool_accepts.
+
+Theorem C15_base_offset_interval_is_open :
+  (forall d, pool_offset_ok d = true <-> - P < d < P) /\
+  pool_offset_ok_closed (- P) = true /\ pool_offset_ok (- P) = false /\ pow_integer_part (- P) = -1.
+Proof. exact (conj pool_offset_open pool_offset_closed_interval_unsound). Qed.
+Print Assumptions C15_base_offset_interval_is_open.
+
 (* ---- the swap interface fee rate: an accepted rate never makes 1 - rate zero *)
 Theorem C15_fee_rate_no_division_by_zero : forall rate, swap_rate_ok true rate = true -> P - rate <> 0.
 Proof. exact fee_rate_no_division_by_zero. Qed.
